@@ -2,8 +2,7 @@
 parsing is the inverse of rendering.
 Implementation: Filter.parse_topics / parse_options / normalize_config, utils.split_commas_maybe,
 normalize_config of Util, VideoIn, ImageIn, VideoOut, ImageOut, Recorder, Webvis, MQTTOut, REST.
-Model: coq/theories/Conf/{StrExt,Topics,Options,Normalize}.v; theorems: Properties/C11.v.
-MQTTOut and REST are validated by the implementation-side oracle only (not modelled)."""
+Model: coq/theories/Conf/{StrExt,Topics,Options,Normalize}.v (all ten classes); theorems: Properties/C11.v."""
 import contextlib, copy, io, json, logging, os, re, sys
 from fractions import Fraction
 import vlib
@@ -28,7 +27,7 @@ from openfilter.filter_runtime.filters.webvis import Webvis
 
 IMPORTS = 'From OF Require Import Conf.StrExt Conf.Topics Conf.Options Conf.Normalize.'
 CLASSES = dict(Filter=(Filter, 0), Util=(Util, 1), VideoIn=(VideoIn, 2), ImageIn=(ImageIn, 3), VideoOut=(VideoOut, 4),
-               ImageOut=(ImageOut, 5), Recorder=(Recorder, 6), Webvis=(Webvis, 7), MQTTOut=(MQTTOut, None), REST=(REST, None))
+               ImageOut=(ImageOut, 5), Recorder=(Recorder, 6), Webvis=(Webvis, 7), MQTTOut=(MQTTOut, 8), REST=(REST, 9))
 RE_OPTNAME = re.compile(r'^(?:no-)?[a-zA-Z_]\w*(?:=|$)')
 
 # ---------------------------------------------------------------- canonical forms / literals
@@ -571,19 +570,24 @@ def gen_mqtt(rng):
     if maps and not any(',' in mtext(m) for m in maps):
         forms['list'] = {**st, 'mappings': [mtext(m) for m in maps]}
         forms['maptext'] = {**st, 'mappings': join_commas(rng, [mtext(m) for m in maps])}
-    return dict(cls='MQTTOut', forms=forms, in_domain=False, flags=[], n=len(maps))
+    return dict(cls='MQTTOut', forms=forms, in_domain=True, flags=[], n=len(maps))
 
 def gen_rest(rng):
     bt, bs = gen_base_extras(rng)
     host = rng.choice(['0.0.0.0', 'localhost', ''])
     port = rng.choice([None, 8000, 8080])
     base = rng.choice([None, None, 'endpoint', 'api/v1', 'endpoint/'])
-    eps, seen = [], set()
+    eps, seen, flags = [], set(), []
     for _ in range(rng.choice([0, 1, 1, 2, 3, 4])):
         methods = rng.choice([None, ['get'], ['GET'], ['put', 'post'], ['post'], ['delete', 'get']])
         path = rng.choice([None, 'one', 'two/{var}', 'a/b', '/lead', 'x'])
+        if rng.random() < 0.01:
+            path = '//dbl'
+            flags.append('double-leading-slash')
         topic = rng.choice([None, 'mytopic', 'mytopic/one', 'main/data'])
         keyset = {(m.upper(), (path or '').lstrip('/') or None) for m in (methods or ['GET', 'POST'])}
+        if path == '//dbl' and any(p == 'dbl' for _, p in seen):
+            continue
         if keyset & seen:
             continue
         seen |= keyset
@@ -616,7 +620,7 @@ def gen_rest(rng):
     st['endpoints'] = [estruct(e) for e in eps] if eps else [{}]
     forms = dict(text={**bt, 'outputs': join_commas(rng, out), 'sources': ws(rng) + url + ''.join(ws(rng) + ';' + ws(rng) + etext(e) for e in eps)},
                  struct=st)
-    return dict(cls='REST', forms=forms, in_domain=False, flags=[], n=len(eps))
+    return dict(cls='REST', forms=forms, in_domain=True, flags=flags, n=len(eps))
 
 GENS = dict(Filter=gen_filter, Util=gen_util, VideoIn=lambda r: gen_io(r, 'VideoIn'), ImageIn=lambda r: gen_io(r, 'ImageIn'),
             VideoOut=lambda r: gen_io(r, 'VideoOut'), ImageOut=lambda r: gen_io(r, 'ImageOut'), Recorder=gen_recorder,
@@ -665,16 +669,22 @@ CORPUS = [
         struct=dict(id='filter', sources=['tcp://localhost:5552;main', 'ipc://myipcin;other'], outputs=['tcp://*:5554; ipc://myipcout'],
                     outputs_required=['filter1', 'filter2'], exit_after='@2024-09-17T06:26:20.189123-04:00',
                     extra_metrics={'my_int_metric': 1, 'my_str_metric': 'str'}, mq_log='pretty'))),
-    dict(cls='REST', in_domain=False, flags=[], n=2, forms=dict(
+    dict(cls='REST', in_domain=True, flags=[], n=2, forms=dict(
         text=dict(outputs='tcp://*', sources='http://0.0.0.0:8000/endpoint;(put|post)one>mytopic/one;(put|post)two/{var}>mytopic/two'),
         struct=dict(outputs=['tcp://*'], host='0.0.0.0', port=8000, base_path='endpoint', endpoints=[
             {'methods': ['put', 'post'], 'path': 'one', 'topic': 'mytopic/one'},
             {'methods': ['put', 'post'], 'path': 'two/{var}', 'topic': 'mytopic/two'}]))),
-    dict(cls='MQTTOut', in_domain=False, flags=[], n=2, forms=dict(
+    dict(cls='MQTTOut', in_domain=True, flags=[], n=2, forms=dict(
         text=dict(sources='tcp://*', outputs='mqtt://host:1883/base_topic/ ; topic ; topic2/image > topic2_frames'),
         struct=dict(sources=['tcp://*'], broker_host='host', broker_port=1883, base_topic='base_topic/', mappings=[
             {'dst_topic': None, 'src_topic': 'topic', 'src_path': None, 'options': {}},
             {'dst_topic': 'topic2_frames', 'src_topic': 'topic2', 'src_path': 'image', 'options': {}}]))),
+    # REST: a doubled leading '/' loses one '/' per pass (C11_idempotent_REST_refuted)
+    dict(cls='REST', in_domain=True, flags=['double-leading-slash'], n=1, forms=dict(
+        text=dict(outputs='tcp://*', sources='http://h:80;//a>t'),
+        struct=dict(outputs=['tcp://*'], host='h', port=80, endpoints=[{'path': '//a', 'topic': 't'}]))),
+    dict(cls='REST', in_domain=True, flags=['double-leading-slash'], n=1, forms=dict(
+        struct=dict(outputs=['tcp://*'], base_path='//a/', endpoints=[{'path': 'x'}]))),
     # a password with '!' that does not look like an option: kept in the address
     dict(cls='VideoIn', in_domain=True, flags=[], n=1, forms=dict(
         text=dict(outputs='tcp://*', sources='rtsp://user:p!w:1/@host:554/s!sync;cam'),
@@ -794,7 +804,7 @@ def check_case(run, case, model_cases, quiet=False):
         # model
         if code is not None and case.get('in_domain', True) and texts_in_domain(cfg) and malformed_in_domain(name, cfg):
             model_cases.append((pairl(zl(code), cval_lit(cfg)), res_model(st, r), raw))
-            if st == 'ok':       # the normalised configuration is itself an input (second pass of the model)
+            if st == 'ok' and form in ('text', 'struct'):   # the normalised configuration is itself an input (second pass of the model)
                 p = r if not isinstance(r, dict) else copy.deepcopy(r)
                 st2, r2 = call(cls.normalize_config, copy.deepcopy(r))
                 model_cases.append((pairl(zl(code), cval_lit(p)), res_model(st2, r2),
@@ -836,7 +846,7 @@ def gen_name(rng, allow_gt=False):
 def topics_family(run, rng):
     cases = []
     # round trip on the implementation: parse(render(ms)) == ms
-    for i in range(run.n(500, 8000)):
+    for i in range(run.n(500, 6000)):
         addr = rng.choice(['tcp://a', 'ipc://x', 'file:///a b/c', 'rtsp://u:p!w@h/s', '', 'a,b'])
         n = rng.randint(0, 4)
         srcs, dsts = set(), set()
@@ -870,7 +880,7 @@ def topics_family(run, rng):
                           dict(kind='roundtrip-topics-plain', text=text, addr=addr, topics=ts, mode=mode))
     # model comparison: structured and random texts, all modes
     ALPH = 'ab;>,! =\tm1'
-    for i in range(run.n(900, 12000)):
+    for i in range(run.n(600, 4500)):
         if rng.random() < 0.5:
             text = ''.join(rng.choice(ALPH) for _ in range(rng.randint(0, 12)))
         else:
@@ -939,7 +949,7 @@ def options_family(run, rng):
     ALPH = 'ab!= -no_1"\t.xét'
     VALS = ['1', 'true', 'false', 'null', '"s"', 'hello', '-3', '01', '0.5', '1.5', '-0', '0', '"a b"', '""', '"', '"a"b"', '- 1', '1.', '.5',
             '00', '-', '10', '123456789012345678901234567890', 'tru', '"é"', "'s'", '2.50', '-0.0', '0.125', '[1]', '{"a":1}', '1e3', 'NaN', '0.1']
-    for i in range(run.n(1200, 16000)):
+    for i in range(run.n(800, 6000)):
         r0 = rng.random()
         if r0 < 0.35:
             text = ''.join(rng.choice(ALPH) for _ in range(rng.randint(0, 14)))
@@ -959,7 +969,7 @@ def options_family(run, rng):
     run.samples.append(dict(family='parse_options', **cases[-1][2], result=cases[-1][1]))
     # the option-name pattern itself
     cases = []
-    for i in range(run.n(500, 6000)):
+    for i in range(run.n(500, 4000)):
         s = ''.join(rng.choice('abno-_=1 \né!Z') for _ in range(rng.randint(0, 8)))
         cases.append((strl(s), bool(Filter.re_valid_option_name.match(s)), dict(s=s)))
         run.seen(('optname', s), nontrivial=True)
@@ -1036,7 +1046,7 @@ def main():
     for case in CORPUS:
         check_case(run, case, model_cases[case['cls']])
         run.count('corpus:%s' % case['cls'])
-    per_cls = run.n(110, 2400)
+    per_cls = run.n(48, 400)
     for name in CLASSES:
         generated = []
         for i in range(per_cls):
@@ -1051,7 +1061,10 @@ def main():
             run.samples.append(dict(family='normalize_config', cls=name, forms=tojson(c['forms'])))
         # malformed stream
         for i in range(per_cls // 2):
-            nm, cfg, tag = mutate(rng, rng.choice(generated))
+            src_case = rng.choice(generated)
+            nm, cfg, tag = mutate(rng, src_case)
+            if src_case.get('flags'):
+                tag += ' ' + ','.join(src_case['flags'])
             cls, code = CLASSES[nm]
             st, r = normalize(cls, cfg)
             run.count('malformed:%s:%s' % (nm, st if st == 'ok' else r))
@@ -1080,15 +1093,16 @@ def main():
                 'URI passwords containing ! : / =) rendered as text, list-of-text and structured forms, plus the normalised result fed back, '
                 'plus a malformed stream (18 mutation kinds); parse_topics/parse_options/split_commas_maybe/option-name pattern on structured '
                 'and random strings; every evaluation counted, distinct by hash of (class, form, configuration)')
-    run.partial = ['MQTTOut and REST are not modelled: idempotence and text-vs-struct are checked by the implementation-side oracle only',
+    run.partial = ['MQTTOut: idempotence proved except for an empty "outputs" value (\'\' / []), which is kept and changes place on the second '
+                   'pass (C11_idempotent_MQTTOut_partial); REST: idempotence is refuted (C11_idempotent_REST_refuted, doubled leading "/")',
                    'Recorder idempotence is proved up to the order of top-level keys (the second pass moves "outputs" behind "rules"/"_rules"): '
                    'C11_idempotent_Recorder states equality of every key lookup and of the number of keys, and exact reproduction from the second pass on',
                    'option values outside the scalar JSON forms (lists, objects, exponents, NaN/Infinity, escapes, fractions that are not exact '
                    'doubles), inexact box/segtime decimals, and word characters >= U+0100 are outside the model: oracle only',
                    "validity of '@date' exit_after values (parse_date_and_or_time) is a parameter of the model (date_ok)",
                    'C11_text_eq_struct_<Cls> is proved for the record lists of VideoIn, ImageIn, VideoOut, ImageOut, the comma lists of Filter and '
-                   'the output of Recorder; for Util (xforms), Webvis (http:// output vs host/port), MQTTOut and REST the equivalence is checked '
-                   'on the implementation only',
+                   'the output of Recorder; for Util (xforms), Webvis (http:// output vs host/port), MQTTOut (mqtt:// string vs broker_*/mappings) '
+                   'and REST (http:// string vs host/port/endpoints) the equivalence is checked on the implementation (and the models compared) only',
                    'the round-trip and text-vs-struct theorems carry the code\'s own disambiguation rule (valid_text): a URI password whose last '
                    '"!" is followed by `ident=` (or a text ending in "!ident") is outside of it - C11_*_any_password_refuted are the witnesses']
     run.assumptions = ['environment pinned: FILTER_ENABLE_JSON / FILTER_SLEEP_INTERVAL unset; MQTTOut random client-id suffix canonicalised',
